@@ -109,7 +109,7 @@ class Gen:
         return toks
 
 
-def gen_case(rng, nworkers=None, size=None, heavy=False, safe=False):
+def gen_case(rng, nworkers=None, size=None, heavy=False, safe=False, reuse=False):
     nworkers = nworkers or rng.choice([1, 2, 2, 3, 3, 4, 5, 7, 8, 12, 15, 16])
     nmutex = rng.choice([1, 1, 2, 3, 4])
     size = size or rng.choice([4, 8, 14, 22])
@@ -118,6 +118,17 @@ def gen_case(rng, nworkers=None, size=None, heavy=False, safe=False):
     # spawn tree: every worker is created (and joined, and read) by main or by a worker with a smaller number
     parent = {u: (0 if u == 1 or rng.random() < .75 else rng.randrange(1, u)) for u in range(1, nworkers + 1)}
     kids = {t: [u for u in parent if parent[u] == t] for t in range(0, nworkers + 1)}
+    # Thread-object reuse: some workers are called again (2-4 runs: call, join, read, call again ...) by their creator
+    # (only leaves of the spawn tree: the harness and the stand-alone oracle count the calls of a Thread object statically)
+    runs = {u: (rng.choice([2, 2, 3, 4]) if not kids[u] and rng.random() < (.5 if reuse else .12) else 1) for u in parent}
+
+    def again(u):
+        out = []
+        for _ in range(runs[u] - 1):
+            out.append('S%d' % u)
+            if rng.random() < .3: out.append(rng.choice(['y', 'e%d' % rng.randrange(100), 'o']))
+            out += ['J%d' % u, 'P%d' % u]
+        return out
     # main: spawn its children (own work in between), then join in some order, peek after join
     main = []
     for u in kids[0]:
@@ -128,8 +139,9 @@ def gen_case(rng, nworkers=None, size=None, heavy=False, safe=False):
     pending = []
     for u in order:
         main.append('J%d' % u)
-        if rng.random() < .7: main.append('P%d' % u)
+        if rng.random() < .7 or runs[u] > 1: main.append('P%d' % u)
         else: pending.append(u)
+        main += again(u)
         if rng.random() < .2: main += g.block(1, set(), 0, [])
     for u in pending: main.append('P%d' % u)
     progs.append(main)
@@ -155,13 +167,17 @@ def gen_case(rng, nworkers=None, size=None, heavy=False, safe=False):
             for k in kids[u]:
                 a = rng.choice(free); b = rng.choice([x for x in free if x >= a])
                 ins.setdefault(a, []).append('S%d' % k)
-                ins.setdefault(b, []).append('~J%d' % k + (' P%d' % k if rng.random() < .8 else ''))
+                ins.setdefault(b, []).append('~J%d' % k + (' P%d' % k if rng.random() < .8 or runs[k] > 1 else '')
+                                             + ''.join(' ' + x for x in again(k)))
             out = []
             for n in range(len(stmts) + 1):
                 todo = ins.get(n, [])
                 out += [x for x in todo if x[0] == 'S'] + [x[1:] for x in todo if x[0] == '~']
                 if n < len(stmts): out.append(stmts[n])
             p = ' '.join(out).split()
+        if runs[u] > 1:
+            # a run takes a moment and ends with an observable result: a join that does not wait is seen
+            p = p + ['z%d' % rng.choice([2, 3, 5]), 'e%d' % rng.randrange(1000)]
         progs.append(p)
     total = sum(len(p) for p in progs) * 3 + 10
     sched = [rng.randrange(0, nworkers + 1) for _ in range(min(total, 400))]
@@ -251,16 +267,31 @@ def spawned(case):
 
 
 def joined_peeks(case):
-    """per thread t: for every P<u> of its program (in order): was it preceded by t's own S<u> and J<u>?"""
+    """per thread t: for every P<u> of its program (in order): the number r of the run of Thread object u it
+    must see completely (t called u r times and joined it r times before the read), or 0 when the read is
+    not preceded by a join of the latest call (then it promises nothing)"""
     res = {}
     for t, prog in enumerate(case.split('|')[2:]):
-        out, joined, started = [], set(), set()
+        out, calls, joins = [], {}, {}
         for tok in prog.split():
-            if tok[0] == 'S' and tok[1:].isdigit(): started.add(tok[1:])
-            elif tok[0] == 'J' and tok[1:].isdigit() and tok[1:] in started: joined.add(tok[1:])
-            elif tok[0] == 'P' and tok[1:].isdigit(): out.append(tok[1:] in joined)
+            u = tok[1:]
+            if tok[0] == 'S' and u.isdigit(): calls[u] = calls.get(u, 0) + 1
+            elif tok[0] == 'J' and u.isdigit() and calls.get(u, 0) > joins.get(u, 0): joins[u] = calls[u]
+            elif tok[0] == 'P' and u.isdigit():
+                out.append(calls.get(u, 0) if calls.get(u, 0) and joins.get(u, 0) == calls.get(u, 0) else 0)
         res[t] = out
     return res
+
+
+def through_run(events, r):
+    """the thread's trace up to the end of its r-th run (the r-th x{..} event)"""
+    n = 0
+    for i, e in enumerate(events):
+        if e.startswith('x{'):
+            n += 1
+            if n == r:
+                return events[:i + 1]
+    return None
 
 
 def seen_by_thread(text):
@@ -308,8 +339,10 @@ def oracle(case, impl, spec):
                 if t not in live or n >= len(ok_peeks.get(t, [])) or not ok_peeks[t][n]:
                     continue       # a read without a preceding join promises nothing
                 got = text.split(',') if text else []
-                if got != p['conc'].get(u, []):
-                    return 'after join(%d) thread %d read an incomplete trace: %s' % (u, t, first_diff(got, p['conc'].get(u, [])))
+                want = through_run(p['conc'].get(u, []), ok_peeks[t][n])
+                if want is None or got != want:
+                    return 'after join(%d) of its call no. %d thread %d read an incomplete trace: %s' % (
+                        u, ok_peeks[t][n], t, first_diff(got, want or p['conc'].get(u, [])))
     return None
 
 
@@ -490,6 +523,9 @@ def tsan_pass(ctx, cases, run_model, run_spec):
 
 
 CORPUS = [
+    # Thread-object reuse: call / join / read, three rounds; the run sleeps before its last result
+    '1|0,1|S1 J1 P1 S1 e5 J1 P1 S1 J1 P1|s1,4 o a0 c W0( i0 ) z5 e9',
+    '2g|0,1,2|S1 S2 J2 P2 J1 P1 S1 S2 J1 P1 J2 P2 S2 J2 P2|[ t1 ]1 o } w0,10 z3 e1|w6,5 s2,7 z3 e2|e3',
     # fixed f2b0c3a: the main thread collects (its stack holds the managed Thread objects) while the workers'
     # TLS tables grow, rehash and shrink — Thread_Mark used to walk the foreign tables (ValueError / SIGSEGV
     # in the collecting thread, lost TLS bindings in the workers)
@@ -547,12 +583,12 @@ def run(ctx):
             # never run a program on the library that the machine says is out of contract (deadlock = 20 s)
             sp = ctx.run_lines(drv, cs, args=['spec'])[1]
             good = [c for c, x in zip(cs, sp) if x.endswith('# ok')]
-            res = iter(ctx.run_lines(h, good, env=env, timeout=3000)[1]) if good else iter([])
+            res = iter(ctx.run_lines(h, good, env=env, timeout=3000, shard=80)[1]) if good else iter([])
             out = [next(res) if x.endswith('# ok') else 'INVALID ' + x.split(' # ')[-1] for x in sp]
         else:
             out = ctx.run_lines(h, cs, env=env, timeout=3000)[1]
         for n, o in enumerate(out):
-            if o.endswith('TIMEOUT') and stats.get('timeouts_retried', 0) < 2 and not os.environ.get('VERIF_NO_RETRY'):
+            if (o.endswith('TIMEOUT') or o.startswith('HARNESS-')) and stats.get('timeouts_retried', 0) < 2 and not os.environ.get('VERIF_NO_RETRY'):
                 # a loaded machine can starve 17 threads for 20 s: once more, alone, with a long watchdog
                 stats['timeouts_retried'] = stats.get('timeouts_retried', 0) + 1
                 r2 = ctx.run_lines(h, [cs[n]], env=dict(env, H_TIMEOUT='150'), timeout=400)[1]
@@ -636,12 +672,12 @@ def run(ctx):
     d.feed(usable(CORPUS), 'corpus')
     known_finding_probe(ctx, lambda cs: ctx.run_lines(h, cs, env=env, timeout=600)[1])
     if quick:
-        plan = [(None, None, False)] * 1000 + [(16, 8, False)] * 60 + [(4, 14, True)] * 40 + [(2, 22, True)] * 40
+        plan = [(None, None, False)] * 1000 + [(16, 8, False)] * 60 + [(4, 14, True)] * 40 + [(2, 22, True)] * 40 + [('reuse', 8, False)] * 150
     else:
-        plan = [(n, None, False) for n in range(1, 17) for _ in range(500)] + [(n, 14, True) for n in range(1, 17) for _ in range(20)]
-    cases = usable([gen_case(ctx.rng, n, s, hv, safe) for (n, s, hv) in plan])
-    for i in range(0, len(cases), 100):
-        d.feed(cases[i:i + 100])
+        plan = [(n, None, False) for n in range(1, 17) for _ in range(500)] + [(n, 14, True) for n in range(1, 17) for _ in range(20)] + [('reuse', 8, False)] * 800
+    cases = usable([gen_case(ctx.rng, None if n == 'reuse' else n, s, hv, safe, n == 'reuse') for (n, s, hv) in plan])
+    for i in range(0, len(cases), 320):      # run_lines runs shards of 80 cases side by side
+        d.feed(cases[i:i + 320])
     ctx.cov['thread_counts'] = sorted(set(c.count('|') - 1 for c in cases))
     hist = {}
     for c in cases:
